@@ -51,11 +51,32 @@ def reduce_index(t, facts):
         from ..terms import mk_not
         if mk_not(c) in facts:
             return reduce_index(t[3], facts)
-        if entails(facts, c):
+        def holds(cond):
+            if entails(facts, cond):
+                return True
+            if cond[0] == 'icmp' and cond[1] == 'ne':
+                # a ≠ b follows from a < b or from a > b
+                return entails(facts, ('icmp', 'lt', cond[2], cond[3])) or entails(facts, ('icmp', 'gt', cond[2], cond[3]))
+            return False
+        if holds(c):
             return reduce_index(t[2], facts)
-        if entails(facts, mk_not(c)):
+        if holds(mk_not(c)):
             return reduce_index(t[3], facts)
-        return ('sel', c, reduce_index(t[2], facts | {c}), reduce_index(t[3], facts | {mk_not(c)}))
+        a_ = reduce_index(t[2], facts | {c})
+        b_ = reduce_index(t[3], facts | {mk_not(c)})
+        # in the branch where two index terms are equal, one may stand for the other
+        from ..terms import subst_term, NF
+        if c[0] == 'icmp' and c[1] == 'ne':
+            b_ = subst_term(b_, {c[2]: c[3]}) if c[2][0] == 'sym' else (subst_term(b_, {c[3]: c[2]}) if c[3][0] == 'sym' else b_)
+        elif c[0] == 'icmp' and c[1] == 'eq':
+            a_ = subst_term(a_, {c[2]: c[3]}) if c[2][0] == 'sym' else (subst_term(a_, {c[3]: c[2]}) if c[3][0] == 'sym' else a_)
+        nf_ = NF()
+        try:
+            if a_[0] != 'sel' and b_[0] != 'sel' and nf_(a_).equals(nf_(b_)):
+                return a_
+        except Exception:
+            pass
+        return ('sel', c, a_, b_)
     return t
 
 
